@@ -159,6 +159,15 @@ Definition sum_h (hs : list hist) : hist :=
   | h :: rest => fold_left hadd rest (mk O (map (fun oc => (addT zeroT (fst oc), snd oc)) h))
   end.
 
+(* n @ h: as_int guard elsewhere (C19); negative n rejected; sum_h(repeat(h, n)) *)
+Definition hmatmul (n : Z) (h : hist) : res hist :=
+  if n <? 0 then Err ValueError else Ok (sum_h (repeat h (Z.to_nat n))).
+(* n @ p: n copies of every die, through P.__init__ *)
+Definition pmatmul (n : Z) (p : list hist) : res (list hist) :=
+  if n <? 0 then Err ValueError else Ok (mkP O (concat (repeat p (Z.to_nat n)))).
+(* P( *args ): each argument is a histogram (one die) or a pool (its dice) *)
+Definition mkP_args (args : list (list hist)) : list hist := mkP O (concat args).
+
 (* P.h( *which ) *)
 Definition p_h (p : list hist) (which : option (list sel)) : res hist :=
   match which with
